@@ -426,6 +426,7 @@ func runC19(cases string, res *Result) {
 	c19LiteralBaseChains(res)
 	c19ChainsStepByStep(res)
 	c19AbsAtTheEdges(res)
+	c19FractionalIndexes(res)
 	readCases(cases, func(c Case) {
 		stream := c.str("stream")
 		f := c.str("f")
